@@ -11,6 +11,13 @@ package common
 //@ func AbstractReaderName
 //@   pure
 
+// ---- C08: the module name of a namespace, as written in import statements and qualified references, is the
+// snake_cased namespace: the same spelling python.Generate gives the namespace's directory.
+//@ func NamespaceIdentifierName
+//@   property C08
+//@   pure
+//@   ensures module_name_is_the_snake_cased_namespace: result == formatting.ToSnakeCase(namespace)
+
 // ---- C08: reserved words. An identifier is escaped when its Python spelling (after the case conversion) is reserved.
 //@ func FieldIdentifierName
 //@   property C08
